@@ -2,7 +2,7 @@ import runner as R
 from props import *
 import C04_more
 
-LEAN_MODULES = ['C09', 'C09m']
+LEAN_MODULES = ['C09', 'C09m', 'C15']
 
 MANIFEST = dict(
     text="Proved in Lean: a machine holding a CtxSafe certificate (invariant: every stored context is derived from the subscription context; every reaction emits only derived contexts) delivers, "
@@ -48,6 +48,13 @@ def check(ctx):
     rows = R.run_kind(ctx, 'chains')
     R.compare(ctx, rows, proj_ctx, 'C09 context markers through chains', oracle=oracle_ctx, nontrivial=lambda c, gd: gd.get('trace', '-') != '-')
     C04_more.parts_C09(ctx)
+    # the re-subscribing operators (Retry*, RepeatWith, While*, DoWhile*, Catch, OnErrorResumeNextWith, Concat): the context of every
+    # delivered notification - the values of each attempt, the last error, and the cancellation error Retry delivers when the subscription
+    # context is cancelled before / during an attempt / during the delay (it carries the SUBSCRIPTION context) - over the runs of
+    # kind=resub (loops and closed forms: RoProps/C15), read through C09's projection
+    rows = R.run_kind(ctx, 'resub')
+    R.compare(ctx, rows, lambda d: (flag(d), d.get('trace')), 'C09 context markers of every notification delivered by the re-subscribing operators',
+              nontrivial=lambda c, gd: gd.get('trace', '-') != '-', max_report=2)
     rows = R.run_kind(ctx, 'multi')
     R.compare(ctx, rows, lambda d: (flag(d), ctx_of(d.get('trace')), d.get('sctx')), 'C09 context markers through multi-source operators (delivered contexts; context each source is subscribed with)', nontrivial=lambda c, gd: gd.get('trace', '-') != '-', max_report=2)
     # Share: every upstream subscription is made with the context of the subscriber that creates the generation (subscriber i
